@@ -10,5 +10,8 @@ CONSTANTS
   MaxVers = 3
   MaxMut = 0
   MaxMoves = 0
+  InitKeys <- NoKeys
+  InitVal = "a"
+  Put2 = TRUE
 INVARIANTS IterOK SizeOK
 PROPERTIES Persistent
